@@ -60,17 +60,17 @@ func ZVPrfForVersion(version, suiteID uint16, n int, secret, label, seed []byte)
 	return out, h
 }
 
-// ZVSuite is one row of the TLS <= 1.2 suite table as far as key derivation reads it.
-type ZVSuite struct {
+// ZV26Suite is one row of the TLS <= 1.2 suite table as far as key derivation reads it.
+type ZV26Suite struct {
 	ID                    uint16
 	KeyLen, MacLen, IVLen int
 	SHA384                bool
 }
 
-func ZVSuites() []ZVSuite {
-	var r []ZVSuite
+func ZVSuites() []ZV26Suite {
+	var r []ZV26Suite
 	for _, s := range implementedCipherSuites {
-		r = append(r, ZVSuite{s.id, s.keyLen, s.macLen, s.ivLen, s.flags&suiteSHA384 != 0})
+		r = append(r, ZV26Suite{s.id, s.keyLen, s.macLen, s.ivLen, s.flags&suiteSHA384 != 0})
 	}
 	return r
 }
